@@ -161,6 +161,46 @@ def r_iter_readitems(F, R):
         R.check("R-ITER", b.label(), ok and not bad_adaptors(b),
                 construct="next = zip.next().map(|(i, column)| column.index(i))",
                 where=b.where(), detail="yields %s" % [show(t)[:150] for t in somes])
+    # ---- stepping the row iterator from the back
+    RCI = "impls::columns::ReadColumnsIterInner"
+    for b in [x for x in F.bodies.values() if x.self_adt == RCI and x.kind == "AssocFn" and not x.in_tests() and
+              x.name in ("next_back", "last", "nth_back") and x.trait in ("Iterator", "DoubleEndedIterator")]:
+        ctx = Ctx(b)
+        somes = [nobb(t) for t in ret_alts(ctx) if t != NONE]
+        for t in somes:
+            if not (t[0] == "agg" and t[1] == "Option::Some" and t[2][0][0] == "call" and t[2][0][1] == ("Region", "index")):
+                continue
+            col, idx = t[2][0][2]
+            if not (col[0] == "call" and idx[0] == "call" and col[1][1] in ("next_back", "last", "nth_back") and
+                    idx[1][1] in ("next_back", "last", "nth_back") and col[2] and idx[2] and col[2][0] != idx[2][0] and
+                    col[2][0][0] == "place" and idx[2][0][0] == "place"):
+                continue
+            n += 1
+            R.saw(b)
+            # what the two sequences are built from
+            fields = [f["name"] for f in F.adts[RCI]["variants"][0]["fields"]] if RCI in F.adts else []
+            built = {}
+            for ib in [x for x in F.bodies.values() if x.trait == "IntoIterator" and x.name == "into_iter" and
+                       x.self_adt == "impls::columns::ReadColumns"]:
+                for alt in ret_alts(Ctx(ib)):
+                    for nd in walk(nobb(alt)):
+                        if nd[0] == "agg" and nd[1].startswith("ReadColumnsIterInner::") and len(nd[2]) == len(fields):
+                            built = dict(zip(fields, nd[2]))
+            cf = col[2][0][3][-1][2:] if col[2][0][3] else None
+            xf = idx[2][0][3][-1][2:] if idx[2][0][3] else None
+            cv, xv = built.get(cf), built.get(xf)
+
+            def plain_iter_of(v, fld):
+                return v is not None and v[0] == "call" and v[1][1] == "iter" and v[2] and v[2][0][0] == "place" and \
+                    v[2][0][3][-1:] == ("f:" + fld,)
+            if plain_iter_of(cv, "columns") and plain_iter_of(xv, "index"):
+                R.check("R-ITER", b.label(), False, construct="cells are paired by position when stepping from the back",
+                        where=b.where(),
+                        detail="%s() takes the last remaining index and the last remaining column, but the two sequences "
+                               "are the row's own indices and *all* columns of the region: a row narrower than the region "
+                               "pairs its last index with a column it has no cell in" % b.name)
+            else:
+                R.undecided_site("R-ITER", b.label(), "%s() steps two sequences from the back; that they have equal length is not decided" % b.name)
     R.floor("R-ITER", "read-item iterator bodies", n, 6)
 
 
@@ -282,7 +322,16 @@ def r_exact_size(F, R, cat=None):
             continue
         for b in hints:
             R.saw(b)
-            srcs = [callee_tag(t.get("callee")) for (_, t) in b.calls()]
+            from core import all_ctxs, fnitem_of_operand
+            srcs = []
+            for c2 in all_ctxs(F, b):
+                for (_, t) in c2.body.calls():
+                    srcs.append(callee_tag(t.get("callee")))
+                    # a method handed on as a function item (`map_or_else(Iterator::size_hint, ..)`)
+                    for a in t.get("args", []):
+                        fi = fnitem_of_operand(a)
+                        if fi is not None:
+                            srcs.append(callee_tag(fi))
             ok = any(tg[1] in ("size_hint", "len") for tg in srcs)
             if not ok:
                 # computed from the iterator's own cursor fields (`end - start`, saturating)
